@@ -12,7 +12,7 @@ stands for (a bare function type denotes a pointer to it, the first pointer leve
 not repeated, element qualifiers of by-value arrays are not representable in Rust).  `NF` are the C
 types on which `norm` is the identity. -/
 namespace BindgenModel.Lower
-open BindgenModel.Generated (Abi AbiFeature abiGate abiNoVariadic)
+open BindgenModel.Generated (Abi AbiFeature abiGate abiNoVariadic abiUnknownRejected)
 
 mutual
 /-- C types as the IR presents them.  `pc`/`ec` = the pointee's / element's *own* `is_const()` flag
@@ -237,7 +237,7 @@ def gateAbi (feat : AbiFeature → Bool) (variadic : Bool) : ClangAbi → Option
     match abiGate a with
     | some f => if !feat f then none else some (.known a)
     | none => if abiNoVariadic a && variadic then none else some (.known a)
-  | .unknown => some .unknown
+  | .unknown => if abiUnknownRejected then none else some .unknown
 
 def sigAbi (overrides : List (Abi × Bool)) (feat : AbiFeature → Bool) (variadic : Bool) (clang : ClangAbi) :
     Option ClangAbi :=
